@@ -807,6 +807,20 @@ func cellStoresIn(fn *ssa.Function, addr ssa.Value) []ssa.Value {
 // blockReturnsError: every path from b reaches a return whose error result is not the nil constant,
 // within a few straight-line blocks.
 func blockReturnsError(b *ssa.BasicBlock) bool {
+	return blockReturnsErrorLocal(b) && errorReachesCaller(b.Parent())
+}
+
+// errorReachesCaller: when fn is a helper with a single call site, the error it returns makes
+// its caller return an error too (all the way up through such helpers).
+func errorReachesCaller(fn *ssa.Function) bool {
+	site := soleCaller(fn)
+	if site == nil {
+		return true
+	}
+	return errorPropagated(site)
+}
+
+func blockReturnsErrorLocal(b *ssa.BasicBlock) bool {
 	for hops := 0; hops < 4; hops++ {
 		last := b.Instrs[len(b.Instrs)-1]
 		if ret, ok := last.(*ssa.Return); ok {
@@ -1218,6 +1232,10 @@ func ruleC20TreeCheck(c *Ctx) {
 }
 
 func blockReturnsErrorDeep(b *ssa.BasicBlock) bool {
+	return blockReturnsErrorDeepLocal(b) && errorReachesCaller(b.Parent())
+}
+
+func blockReturnsErrorDeepLocal(b *ssa.BasicBlock) bool {
 	seen := map[*ssa.BasicBlock]bool{}
 	for hops := 0; hops < 8 && b != nil && !seen[b]; hops++ {
 		seen[b] = true
